@@ -1108,7 +1108,8 @@ func macroSx(exp Exporter) {
 		args = args[1:]
 		idinfo.Name = processInlineMacros(exp, args)
 	} else if idinfo.Name == "" {
-		idinfo.Name = id
+		// the label is the text of the reference: render it as text
+		idinfo.Name = exp.RenderText(args[0])
 	}
 	exp.CrossReference(idinfo, punct)
 }
